@@ -471,6 +471,62 @@ func c14R4(c *Ctx) {
 			}
 		}
 	}
+	// universal form: a chunk read while the status is 'transferring' and carrying marker m cannot get to the next read
+	// (or the pump's end) without the reset — whatever else is tested on the way
+	for _, ps := range relayPumps {
+		f := c.fn(ps.fn)
+		var read *ssa.Call
+		eachInstr(f, func(in ssa.Instruction) {
+			if call, ok := in.(*ssa.Call); ok && call.Call.IsInvoke() && call.Call.Method.Name() == "Read" {
+				read = call
+			}
+		})
+		if read == nil {
+			c.lost("Read in " + ps.fn)
+		}
+		n := extractOf(read, 0)
+		isStatus := func(v ssa.Value) bool {
+			for _, l := range origins(v, originOpts{}) {
+				call, _ := callOf(l.V)
+				if call == nil {
+					return false
+				}
+				if !isAtomicOnField(call, "relayStatus", "Load") && calleeID(&call.Call) != "(*trzsz.TrzszRelay).addHandshakeBuffer" {
+					return false
+				}
+			}
+			return true
+		}
+		isReset := func(in ssa.Instruction) bool {
+			ci, ok := in.(ssa.CallInstruction)
+			return ok && calleeID(ci.Common()) == "(*trzsz.TrzszRelay).resetToStandby"
+		}
+		for _, m := range want {
+			m := m
+			as := []assumption{
+				valueIs(isStatus, tr),
+				valueIs(isValue(n), 1),
+				{pred: func(v ssa.Value) bool {
+					call, _ := callOf(v)
+					if call == nil || calleeID(&call.Call) != "bytes.Contains" {
+						return false
+					}
+					k, ok := constString(strip(call.Call.Args[1]))
+					return ok && k == m
+				}, val: true},
+				// the tunnel pumps: still attached to a relay
+				{val: false, cmp: func(op token.Token, x, y ssa.Value) (bool, bool) {
+					call, _ := callOf(x)
+					if (op != token.EQL && op != token.NEQ) || !isNilConst(y) || call == nil || !isAtomicOnField(call, "relay", "Load") {
+						return false, false
+					}
+					return true, op == token.EQL
+				}},
+			}
+			hit, path := reachFromE(read.Block(), instrIndex(read)+1, func(in ssa.Instruction) bool { return in == ssa.Instruction(read) || isReturn(in) }, isReset, contradicts(as))
+			c.check(hit == nil, ps.fn+"/transferring+marker=>reset."+m, c.ipos(read), "a chunk with this end marker, read while transferring, always resets the relay before the next read", "a chunk carrying "+m+" read while the relay is 'transferring' can pass without the reset: the relay stays in transfer mode after the transfer ended", c.pathStr(path)...)
+		}
+	}
 	// client-input pump: lone Ctrl-C
 	f := c.fn("TrzszRelay.wrapInput")
 	ctrlc := false
